@@ -65,8 +65,11 @@ def build(case):
             from datetime import datetime, timedelta
             kw['start'] = datetime(2024, 1, 1) + timedelta(days=t['start'])
             kw['end'] = datetime(2024, 1, 1) + timedelta(days=t['end'], hours=12)
+        via_ctor = t['member'] and t['parent'] is not None and i % 3 == 1      # (hung under its parent by the constructor)
+        if via_ctor:
+            kw['parent'] = objs[t['parent']]
         o = Task(t['id'], f't{i}', **kw)
-        if t['member']:
+        if t['member'] and not via_ctor:
             if t['parent'] is None:
                 w // o
             else:
